@@ -24,7 +24,7 @@ type c06 struct{}
 
 func init() {
 	register(c06{})
-	expectedProbes["C06"] = []string{"x-order-tie", "x-order-string", "x-order-non-integer", "name-needs-escaping", "builder-value", "order-checked", "kind:swagger", "kind:schema", "map-order-mattered-nowhere", "more-than-12-ordered-properties", "$schema-keyword", "x-order-case-twin", "x-order-unusable"}
+	expectedProbes["C06"] = []string{"x-order-tie", "x-order-string", "x-order-non-integer", "name-needs-escaping", "builder-value", "order-checked", "kind:swagger", "kind:schema", "map-order-mattered-nowhere", "more-than-12-ordered-properties", "$schema-keyword", "x-order-case-twin", "x-order-unusable", "ref-needs-escaping"}
 }
 
 func (c06) ID() string { return "C06" }
@@ -39,6 +39,30 @@ func (c06) Rule() string {
 }
 
 var advNames = []string{"plain", "a\"b", "a\\b", "a\\nb", "line\nbreak", "tab\there", "\u0001ctl", "é", "日本", "</script>", "a&b", "", "x-order", "$ref", "^a\\d+$", "^[a-z]{2,}$", "sp ace", "a/b", "~0", "\\", "\\\\", "\"", "a\\u0041", "ünï", "emoji😀", "k:v", "{}", "[0]"}
+
+var oddRefs = []string{"c:\\temp\\new.json#/definitions/node", "other.json?pattern=\\bfoo\\b#/definitions/a", "urn:x-schemas:dir\\u0041", "a.json?q=\"quoted\"#/definitions/q",
+	"mailto:a\"b@example.com", "#/definitions/a\\b", "#/definitions/say%20%22hi%22", "urn:x:tab\\there\\nnewline"}
+
+func refNeedsEscaping(v interface{}) bool {
+	switch c := v.(type) {
+	case map[string]interface{}:
+		for k, x := range c {
+			if s, ok := x.(string); ok && k == "$ref" && strings.ContainsAny(s, "\\\"") {
+				return true
+			}
+			if refNeedsEscaping(x) {
+				return true
+			}
+		}
+	case []interface{}:
+		for _, x := range c {
+			if refNeedsEscaping(x) {
+				return true
+			}
+		}
+	}
+	return false
+}
 
 // noOrder reports x-order values that cannot order anything: booleans, null, containers and
 // strings that are not numerals.
@@ -99,7 +123,11 @@ func genOrderedSchema(r *sim.RNG, depth int, uniq *int) map[string]interface{} {
 				*uniq++
 				c = map[string]interface{}{"type": "string", "description": fmt.Sprintf("l%d", *uniq)}
 			}
-			if xo, ok := xorder(r, ties); ok {
+			if r.Intn(12) == 0 {
+				// a reference whose text needs escaping inside a JSON string (the URL codec leaves
+				// backslashes and quotes of the query and of an opaque part alone)
+				c = map[string]interface{}{"$ref": oddRefs[r.Intn(len(oddRefs))]}
+			} else if xo, ok := xorder(r, ties); ok {
 				c["x-order"] = xo
 				if r.Intn(8) == 0 {
 					// a case twin of the ordering extension: a different key, which must not influence the order
@@ -404,6 +432,7 @@ func (c06) Run(sc *Scenario) *Verdict {
 			mk = func() (interface{}, error) { s, _, err := runBuilder(steps); return s, err }
 			v.probe("builder-value")
 		default:
+			expected = canonRefs(val) // a $ref is held in the canonical form of the reference codec (C13's business)
 			raw, _ := json.Marshal(val)
 			mk = func() (interface{}, error) {
 				var t interface{}
@@ -493,6 +522,9 @@ func (c06) Run(sc *Scenario) *Verdict {
 			}
 		}
 		scan(expected, "")
+		if refNeedsEscaping(expected) {
+			v.probe("ref-needs-escaping")
+		}
 		if multi || classes["esc"] {
 			v.Sigs = append(v.Sigs, kind+";"+setStr(classes))
 		}
